@@ -3,7 +3,7 @@
 From Coq Require Import List Arith Bool Permutation.
 Import ListNotations.
 Require Import Fggs.Model.Semiring Fggs.Model.Replace Fggs.Proofs.Replace_spec Fggs.Proofs.Replace_model_spec
-  Fggs.Proofs.Replace_confl Fggs.Proofs.Replace_derive_main Fggs.Proofs.Replace_corollaries Fggs.Proofs.Replace_examples.
+  Fggs.Proofs.Replace_confl Fggs.Proofs.Replace_derive_main Fggs.Proofs.Replace_corollaries Fggs.Proofs.Replace_examples Fggs.Proofs.Replace_iso.
 
 (** replace_edge on a well-formed host / edge / replacement whose externals are pairwise distinct:
     returns; the result satisfies the replacement specification (exactly the edge removed, rest and
@@ -109,3 +109,22 @@ Theorem C15_examples :
   xcheck = true /\ xbad = true /\ xderive = true.
 Proof. exact examples_main. Qed.
 Print Assumptions C15_examples.
+
+(** start_graph: a single edge labelled by the start symbol attached to fresh pairwise distinct
+    nodes of the right labels, nothing else; ids below the new counter *)
+Theorem C15_start_graph : forall s nx,
+  start_ok s (fst (fst (start_graph_model s nx))) = true /\
+  belowb (snd (fst (start_graph_model s nx))) (fst (fst (start_graph_model s nx))) = true /\
+  In (snd (start_graph_model s nx)) (g_edges (fst (fst (start_graph_model s nx)))).
+Proof. exact start_graph_model_ok. Qed.
+Print Assumptions C15_start_graph.
+
+(** ... and to each other: the relations "same name" on nodes and on edges are bijections between
+    the two graphs preserving node labels, edge labels and attachment lists in order *)
+Theorem C15_two_orders_isomorphic : forall L t nx l1 l2 s1 s2,
+  wf_dtreeb L t = true -> functionalb L = true ->
+  run l1 (init_state t nx) = Ok s1 -> rs_pending s1 = [] ->
+  run l2 (init_state t nx) = Ok s2 -> rs_pending s2 = [] ->
+  graph_iso (rs_graph s1) (rs_graph s2) (Rn (rs_nnames s1) (rs_nnames s2)) (Re (rs_enames s1) (rs_enames s2)).
+Proof. exact two_orders_isomorphic. Qed.
+Print Assumptions C15_two_orders_isomorphic.
